@@ -70,6 +70,7 @@ func checkC06(w *World, r *Result) {
 			}
 		}
 	}
+	descentDominatesReturns(w, r, "generator/dart")
 	genIDAccumulation(w, r)
 	if genIDRule(w, r, "generator/dart") < 3 {
 		Undecided("GEN-ID: fewer naming sites than confirmed by hand in generator/dart")
